@@ -26,8 +26,9 @@ structure SInv (c : Cfg) (s : St) (m : List BReq) (o : List TRsp) : Prop where
   noneIn : ∀ t ∈ s.txs, t.rsp = none → t.botId ∈ chanOf s m
   /-- while flushing the buffer is empty -/
   flushEmpty : s.flushing = true → s.txs = []
-  /-- the delivered log = what the requester took ++ what waits in the Top port -/
-  outLog : s.delivered = o ++ s.topOut
+  /-- what the requester took ++ what waits in the Top port is part of the delivered log, in order
+      (a flush removes what waits in the Top port: repair 7c2f5a70) -/
+  outLog : (o ++ s.topOut).Sublist s.delivered
   botInLe : s.botIn.length ≤ c.botInCap
   topOutLe : s.topOut.length ≤ c.topOutCap
   /-- tickets (bottom ids) ever handed out ascend strictly -/
@@ -82,8 +83,9 @@ theorem bottomUp_sinv (c : Cfg) (s : St) (m : List BReq) (o : List TRsp) (h : SI
         · intro hf
           have := h.flushEmpty hf
           rw [hs] at this; cases this
-        · show s.delivered ++ _ = o ++ (s.topOut ++ _)
-          rw [h.outLog, List.append_assoc]
+        · show (o ++ (s.topOut ++ [_])).Sublist (s.delivered ++ [_])
+          rw [← List.append_assoc]
+          exact List.Sublist.append h.outLog (List.Sublist.refl _)
         · show (s.topOut ++ [_]).length ≤ c.topOutCap
           simp; omega
       · intro _; exact h
@@ -299,6 +301,26 @@ theorem processCtl_sinv (c : Cfg) (s : St) (m : List BReq) (o : List TRsp) (h : 
             simp
       · intro hi; exact { h with inv := hi }
 
+/-- `dropUndeliveredMsgs` runs only in the flushing state, where no transaction is pending -/
+theorem dropOut_sinv (c : Cfg) (s : St) (m : List BReq) (o : List TRsp) (h : SInv c s m o)
+    (hfl : s.flushing = true) : SInv c (dropOut s).1 m o := by
+  have hi := dropOut_inv c s h.inv
+  have htx := h.flushEmpty hfl
+  have hsub : (chanOf (dropOut s).1 m).Sublist (chanOf s m) := by
+    unfold chanOf dropOut
+    simp only [List.map_nil, List.nil_append]
+    exact List.sublist_append_right _ _
+  unfold dropOut at hi hsub ⊢
+  refine { h with inv := hi, chanNodup := h.chanNodup.sublist hsub, chanFresh := ?_, someOut := ?_,
+                  noneIn := ?_, outLog := ?_, topOutLe := ?_ }
+  · intro x hx; exact h.chanFresh x (hsub.subset hx)
+  · intro t ht; have : t ∈ s.txs := ht; rw [htx] at this; cases this
+  · intro t ht; have : t ∈ s.txs := ht; rw [htx] at this; cases this
+  · show (o ++ []).Sublist s.delivered
+    exact (List.Sublist.append (List.Sublist.refl o) (List.nil_sublist _)).trans h.outLog
+  · show ([] : List TRsp).length ≤ c.topOutCap
+    simp
+
 theorem tick_sinv (c : Cfg) (s : St) (m : List BReq) (o : List TRsp) (h : SInv c s m o) :
     SInv c (tick c s).1 m o := by
   unfold tick
@@ -308,7 +330,8 @@ theorem tick_sinv (c : Cfg) (s : St) (m : List BReq) (o : List TRsp) (h : SInv c
     split
     · exact processCtl_sinv c s m o h
     · split
-      · exact processCtl_sinv c s m o h
+      · rename_i hfl
+        exact dropOut_sinv c _ m o (processCtl_sinv c s m o h) hfl
       · rename_i hfl
         exact (runPipeline_sinv c _ m o (processCtl_sinv c s m o h) (by simpa using hfl)).1
 
@@ -379,8 +402,10 @@ theorem takeRsp_sinv (c : Cfg) (s : St) (m : List BReq) (o : List TRsp) (r : TRs
     (hr : s.topOut = r :: rest) (h : SInv c s m o) : SInv c (step c s .drainTop) m (o ++ [r]) := by
   have hi := step_inv c s .drainTop h.inv
   refine { h with inv := hi, outLog := ?_, topOutLe := ?_ }
-  · show s.delivered = o ++ [r] ++ s.topOut.drop 1
-    rw [h.outLog, hr]; simp
+  · show (o ++ [r] ++ s.topOut.drop 1).Sublist s.delivered
+    have := h.outLog
+    rw [hr] at this
+    simpa [hr] using this
   · show (s.topOut.drop 1).length ≤ c.topOutCap
     have := h.topOutLe
     simp; omega
@@ -421,5 +446,91 @@ theorem sysFold_ok (c : Cfg) (evs : List Ev) (σ : Sys) (h : σ.Ok c) : (evs.fol
 
 theorem sysRun_ok (c : Cfg) (evs : List Ev) : (sysRun c evs).Ok c :=
   sysFold_ok c evs {} (sinv_init c)
+
+/-! ### while flushing the outgoing buffers are empty (repair 7c2f5a70) -/
+
+theorem runPipeline_flushing (c : Cfg) (s : St) : (runPipeline c s).1.flushing = s.flushing := by
+  unfold runPipeline
+  have h1 := iterP_pres (P := fun s' => s'.flushing = s.flushing) (f := bottomUp c)
+    (fun s' hs => by rw [bottomUp_flushing]; exact hs) c.width (s, false) rfl
+  have h2 := iterP_pres (P := fun s' => s'.flushing = s.flushing) (f := parseBottom)
+    (fun s' hs => by rw [parseBottom_flushing]; exact hs) c.width _ h1
+  exact iterP_pres (P := fun s' => s'.flushing = s.flushing) (f := topDown c)
+    (fun s' hs => by rw [topDown_flushing]; exact hs) c.width _ h2
+
+/-- between events: a flushing ROB has nothing in the outgoing buffers of its Top and Bottom ports -/
+def St.FlushOut (s : St) : Prop := s.flushing = true → s.topOut = [] ∧ s.botOut = []
+
+theorem processCtl_outs (c : Cfg) (s : St) :
+    (processCtl c s).1.topOut = s.topOut ∧ (processCtl c s).1.botOut = s.botOut := by
+  unfold processCtl
+  repeat' split
+  all_goals exact ⟨rfl, rfl⟩
+
+theorem processCtl_fault_flushing (c : Cfg) (s : St) (h1 : (processCtl c s).1.fault.isSome = true)
+    (h0 : ¬ s.fault.isSome = true) : (processCtl c s).1.flushing = s.flushing := by
+  revert h1
+  unfold processCtl
+  repeat' split
+  all_goals first
+    | (intro _; rfl)
+    | (intro h1; exact absurd h1 h0)
+
+theorem tick_flushOut (c : Cfg) (s : St) (h : s.FlushOut) : (tick c s).1.FlushOut := by
+  unfold tick
+  split
+  · exact h
+  · rename_i h0
+    simp only
+    split
+    · rename_i h1
+      intro hf
+      have hf' : (processCtl c s).1.flushing = true := hf
+      rw [processCtl_fault_flushing c s h1 h0] at hf'
+      have := h hf'
+      exact ⟨(processCtl_outs c s).1.trans this.1, (processCtl_outs c s).2.trans this.2⟩
+    · split
+      · intro _; exact ⟨rfl, rfl⟩
+      · rename_i hfl
+        intro hf
+        have hf' : (runPipeline c (processCtl c s).1).1.flushing = true := hf
+        rw [runPipeline_flushing] at hf'
+        exact absurd hf' hfl
+
+theorem sysStep_flushOut (c : Cfg) (σ : Sys) (e : Ev) (h : σ.rob.FlushOut) : (sysStep c σ e).rob.FlushOut := by
+  cases e with
+  | tick => exact tick_flushOut c _ h
+  | arrive q => simp only [sysStep, step]; split <;> exact h
+  | memTake =>
+    simp only [sysStep]; split
+    · exact h
+    · intro hf
+      have := h hf
+      simp only [step] at hf ⊢
+      simp [this]
+  | memAnswer j p =>
+    simp only [sysStep]; split
+    · exact h
+    · split
+      · simp only [step]; split <;> exact h
+      · exact h
+  | ctl x => simp only [sysStep, step]; split <;> exact h
+  | takeRsp =>
+    simp only [sysStep]; split
+    · exact h
+    · intro hf
+      have := h hf
+      simp only [step] at hf ⊢
+      simp [this]
+  | takeAck => exact h
+
+theorem sysFold_flushOut (c : Cfg) (evs : List Ev) (σ : Sys) (h : σ.rob.FlushOut) :
+    (evs.foldl (sysStep c) σ).rob.FlushOut := by
+  induction evs generalizing σ with
+  | nil => exact h
+  | cons e es ih => exact ih _ (sysStep_flushOut c σ e h)
+
+theorem sysRun_flushOut (c : Cfg) (evs : List Ev) : (sysRun c evs).rob.FlushOut :=
+  sysFold_flushOut c evs {} (by intro h; cases h)
 
 end C15
